@@ -114,6 +114,7 @@ def spec_program(prog, trad=False):
         txt = prog.get("_texts", {}).get(f["name"])
         if txt is not None:
             f["layout"] = layout_of(txt)
+            f["kinds"] = ["b" if not l.strip() else "c" if l.strip().startswith("//") else "o" for l in txt.split("\n")]
             f["indent_ok"] = bool(prog.get("_indent_ok", True))
         f["prefix"] = prog.get("_prefix_words", {}).get(f["name"], [])
         f["base"] = f["name"]
